@@ -25,7 +25,9 @@ def model_runs(ctx):
 
 
 TIMES = {"A": (1_000_000, 2_000_000), "B": (1_000_000, 2_500_000), "C": (2_000_000, 2_500_000),
-         "D": (0, 2_000_000)}
+         "D": (0, 2_000_000),
+         # equal to A when printed to the millisecond / a day later (equal on a clock face): other timespans
+         "F": (1_000_400, 2_000_300), "G": (86_401_000_000, 86_402_000_000), "H": (1_000_000.5, 2_000_000)}
 
 
 def inputs(ctx):
@@ -39,22 +41,32 @@ def inputs(ctx):
             # captions whose own nodes begin or end with a line break: the separator is added all the same
             ins.append({"id": "gm3-%d" % k, "kind": "merge", "langs": [keys], "breaks": "edge"})
             ins.append({"id": "gm4-%d" % k, "kind": "merge", "langs": [keys], "breaks": "edge2"})
+            # captions without visible text (blanks only, a style pair, a lone break) are captions too
+            ins.append({"id": "gm5-%d" % k, "kind": "merge", "langs": [keys], "breaks": "blank"})
+            # the second time key replaced by one that differs from the first only below the
+            # millisecond, by half a microsecond, or by exactly a day
+            if "B" in keys and k % 2 == 0:
+                for sub in "FGH":
+                    ins.append({"id": "gm6%s-%d" % (sub, k), "kind": "merge", "langs": [[sub if x == "B" else x for x in keys]]})
     for k in range(400 if ctx.quick else 80000):
         langs = []
         for _ in range(rng.randrange(1, 4)):
             n = rng.randrange(0, 31)
             ks = []
             while len(ks) < n:
-                key = rng.choice("ABCD")
+                key = rng.choice("ABCD" if k % 4 else "ABCDFGH")
                 ks += [key] * min(n - len(ks), rng.choice([1, 1, 1, 2, 3, 5]))
             langs.append(ks)
-        ins.append({"id": "rm%d" % k, "kind": "merge", "langs": langs, "breaks": rng.choice([True, True, "edge", "edge2"])})
+        ins.append({"id": "rm%d" % k, "kind": "merge", "langs": langs, "breaks": rng.choice([True, True, "edge", "edge2", "blank"])})
     # adjust: grid
     t1, t2 = 1_000_000, 3_000_000
     g = 0
     for p, q in [(1, 2), (1, 1), (3, 2), (4, 1), (1, 4), (7, 8)]:
         for off in [-t2 * 4, -t2, -t1 - 1, -t1, -t1 + 1, -1, 0, 1, 86_399_000_000]:
-            for starts in [[t1, t2], [0, t1, t2], [t2], [], [0], [2, 3, 5]]:
+            for starts in [[t1, t2], [0, t1, t2], [t2], [], [0], [2, 3, 5],
+                           # lists that are not in time order (document order by speaker, a stray early
+                           # caption at the end): every caption is judged by its own new start
+                           [t2, t1], [t2, 0, t1], [t1, t2, 0], [5, 3, 2], [t1, 0, t2, 1]]:
                 ins.append({"id": "ga%d" % g, "kind": "adjust", "p": p, "q": q, "off": off,
                             "langs": [[(s, s + 700_000) for s in starts]]})
                 g += 1
@@ -73,6 +85,8 @@ def inputs(ctx):
             for _ in range(rng.randrange(0, 12)):
                 t += rng.choice([0, 1, 999, 1000, rng.randrange(10**6), rng.randrange(10**9)])
                 caps.append((t, t + rng.randrange(0, 5_000_000)))
+            if k % 3 == 0:
+                rng.shuffle(caps)
             langs.append(caps)
         allt = [s for l in langs for s, _ in l] or [0]
         base = rng.choice(allt)
@@ -95,7 +109,11 @@ def _mk(langs_desc, with_breaks):
             else:
                 s, e = item
             nodes = [CaptionNode.create_text("L%d c%d a" % (li, ci))]
-            if with_breaks in ("edge", "edge2"):
+            if with_breaks == "blank" and ci % 2 == 0:
+                nodes = [[CaptionNode.create_text("  ")], [CaptionNode.create_break()],
+                         [CaptionNode.create_style(True, {"italics": True}), CaptionNode.create_style(False, {"italics": True})],
+                         [CaptionNode.create_text("")]][(ci // 2) % 4]
+            elif with_breaks in ("edge", "edge2"):
                 shape = (ci + (1 if with_breaks == "edge2" else 0)) % 4     # trailing / leading / both / none
                 if shape in (1, 2):
                     nodes.insert(0, CaptionNode.create_break())
